@@ -181,6 +181,7 @@ def fam_assume(rnd: random.Random, ninputs: int = 8):
 ECHO = 0xEC4000
 ECHO2 = 0xEC4001
 PRANKER = 0xEC4002
+EOA = 0xE0A001  # no code, no balance
 
 
 def echo_runtime() -> bytes:
@@ -231,6 +232,10 @@ def fam_prank(rnd: random.Random, length: int | None = None, ninputs: int = 4):
                 code += [("PUSH", 0)]
             code += [("PUSH", target), ("PUSH", GAS), kind, "POP"]
             out += 128
+        elif op == "eoacall":
+            # a call to an account without code is a call all the same: it succeeds, returns nothing and uses up a single-use prank
+            code += [("PUSH", 0), ("PUSH", 0), ("PUSH", 0), ("PUSH", 0), ("PUSH", 0), ("PUSH", EOA), ("PUSH", GAS), "CALL", ("PUSH", 0x1000 + out), "MSTORE"]
+            out += 32
         elif op == "create":
             init = assemble(["CALLER", ("PUSH", 0), "SSTORE", "ORIGIN", ("PUSH", 1), "SSTORE",
                              # runtime: returns (SLOAD(0), SLOAD(1))
@@ -248,7 +253,7 @@ def fam_prank(rnd: random.Random, length: int | None = None, ninputs: int = 4):
 
     nbranch = 0
     for _ in range(n):
-        ops = ["call", "call", "staticcall", "create", "cheatcall", "nested"]
+        ops = ["call", "call", "staticcall", "create", "cheatcall", "nested", "eoacall"]
         if active is False:
             ops += ["prank1", "prank2", "startPrank1", "startPrank2", "prank1"]
         else:
@@ -263,7 +268,7 @@ def fam_prank(rnd: random.Random, length: int | None = None, ninputs: int = 4):
             # each path has its own prank record
             nbranch += 1
             if active is False:
-                arms = [[], ["call"], ["prank1"], ["startPrank1"], ["prank1", "call"], ["startPrank2", "call"]]
+                arms = [[], ["call"], ["prank1"], ["startPrank1"], ["prank1", "call"], ["startPrank2", "call"], ["prank1", "eoacall"]]
             else:
                 arms = [[], ["call"], ["stopPrank"], ["call", "call"], ["stopPrank", "call"]]
             a1, a2 = rnd.sample(arms, 2)
@@ -284,7 +289,7 @@ def fam_prank(rnd: random.Random, length: int | None = None, ninputs: int = 4):
             active = True
         elif op == "stopPrank":
             active = False
-        elif op in ("call", "staticcall", "nested", "create"):
+        elif op in ("call", "staticcall", "nested", "create", "eoacall"):
             # a single-use prank is consumed by this call
             if active is True and _last_prank(desc) in ("prank1", "prank2"):
                 active = False
